@@ -1221,6 +1221,43 @@ class Interp:
                 return NotImplemented
             c_some = ("is", v, SOME)
             return self.branches([(c_some, hit), (("not", c_some), lambda e2: var(NONE))], env, core.loc(n))
+        if re.search(r"bool>?::(then|then_some)$", g) and len(arg_nodes) == 2:
+            # `cond.then(|| x)` / `cond.then_some(x)`: `if cond { Some(x) } else { None }`
+            b = ev(0)
+
+            def yes(e2):
+                if g.endswith("then_some"):
+                    return var(SOME, self.eval(arg_nodes[1], e2))
+                f = self.eval(arg_nodes[1], e2)
+                if f[0] == "closure":
+                    return var(SOME, self.call_closure(f, []))
+                if f[0] == "fnref":
+                    return var(SOME, self.call_path(f[1], [], f[2]))
+                return var(SOME, ("app", "callvalue", (f,)))
+            if b == C(True) or b is True:
+                return yes(env)
+            if b == C(False) or b is False:
+                return var(NONE)
+            return self.branches([(b, yes), (("not", b), lambda e2: var(NONE))], env, core.loc(n))
+        if re.search(r"Option::<.*>::flatten$", g) and len(arg_nodes) == 1:
+            v = ev(0)
+            if is_var(v, SOME):
+                return v[2][0]
+            if is_var(v, NONE):
+                return v
+            if isinstance(v, tuple) and v and v[0] == "phi":
+                alts = []
+                for cnd, x in v[1]:
+                    if is_var(x, SOME):
+                        alts.append((cnd, x[2][0]))
+                    elif is_var(x, NONE):
+                        alts.append((cnd, x))
+                    else:
+                        alts = None
+                        break
+                if alts:
+                    return ("phi", tuple(alts))
+            return ("app", g, (v,))
         if re.search(r"Option::<T>::(or_else|unwrap_or_else|or)$", g) and len(arg_nodes) == 2:
             # `a.or_else(|| b)` / `a.unwrap_or_else(|| d)` / `a.or(b)`: the same two-way decision as
             # `match a { Some(x) => .., None => .. }`, so that the paths (and the order of the lookups) are visible
@@ -1251,6 +1288,8 @@ class Interp:
             if is_var(v, SOME) or is_var(v, OK):
                 return v[2][0]
             d = ev(1) if len(arg_nodes) > 1 else ("default", n.get("ty", ""))
+            if is_var(v, NONE) or is_var(v, ERR):
+                return d
             return ("unwrap_or", v, d)
         if re.search(r"(Option::<T>::unwrap|Option::<T>::expect|Result::<T, E>::unwrap|Result::<T, E>::expect)$", g):
             v = ev(0)
